@@ -121,6 +121,29 @@ def justiceLoop : Nat → Nat → List Nat → PM (List Nat)
       let condition ← requiredNodeId
       justiceLoop f (remaining - 1) (condition :: acc)
 
+/-- Executable twin of `justiceLoop` with the fuel `fl.length + c` kept as the pair `(fl, c)` and
+used up one list cell per iteration, so that the caller passes the remaining input instead of
+its length. -/
+def justiceLoopFast : VBytes → Nat → Nat → List Nat → PM (List Nat)
+  | [], c, remaining, acc => justiceLoop c remaining acc
+  | _ :: fl, c, remaining, acc =>
+    if remaining == 0 then pure acc.reverse
+    else do
+      requiredSpace
+      let condition ← requiredNodeId
+      justiceLoopFast fl c (remaining - 1) (condition :: acc)
+
+theorem justiceLoop_eq_fast (fl : VBytes) (c : Nat) : ∀ (remaining : Nat) (acc : List Nat),
+    justiceLoop (fl.length + c) remaining acc = justiceLoopFast fl c remaining acc := by
+  induction fl with
+  | nil => intro remaining acc; simp only [List.length_nil, Nat.zero_add, justiceLoopFast]
+  | cons b fl ih =>
+    intro remaining acc
+    have h : (b :: fl).length + c = (fl.length + c) + 1 := by
+      simp only [List.length_cons]; omega
+    rw [h, justiceLoop, justiceLoopFast]
+    simp only [ih]
+
 /-- The `NodeToken::Value(value_token)` arm of `try_node`, after the sort id. -/
 def valueVariant (tok : NodeValueToken) : PM ValueVariant := do
   match tok with
@@ -209,6 +232,49 @@ def nodeVariant (tok : NodeToken) : PM NodeVariant := do
     let sort ← requiredSortId
     let variant ← valueVariant vt
     pure (.value sort variant)
+
+/-- Executable form of `nodeVariant`: the `justice` arm does not compute `rest.length`. -/
+def nodeVariantFast (tok : NodeToken) : PM NodeVariant := do
+  match tok with
+  | .sort =>
+    requiredSpace
+    match ← orGiveUp sortToken unexpected with
+    | .bitvec =>
+      requiredSpace
+      let width ← requiredPositiveInt
+      pure (.sort (.bitVec width))
+    | .array =>
+      requiredSpace
+      let domain ← requiredSortId
+      requiredSpace
+      let codomain ← requiredSortId
+      pure (.sort (.array domain codomain))
+  | .assignment kind =>
+    requiredSpace
+    let sort ← requiredSortId
+    requiredSpace
+    let state ← requiredNodeId
+    requiredSpace
+    let value ← requiredNodeId
+    pure (.assignment state sort kind value)
+  | .output kind =>
+    requiredSpace
+    let value ← requiredNodeId
+    pure (.output (.singleValue kind value))
+  | .justice =>
+    requiredSpace
+    let count ← requiredPositiveInt
+    let nodes ← justiceLoopFast (← get).v.rest 2 count []
+    pure (.output (.justice nodes))
+  | .value vt =>
+    requiredSpace
+    let sort ← requiredSortId
+    let variant ← valueVariant vt
+    pure (.value sort variant)
+
+@[csimp] theorem nodeVariant_eq_fast : @nodeVariant = @nodeVariantFast := by
+  funext tok
+  cases tok <;> simp only [nodeVariant, nodeVariantFast, justiceLoop_eq_fast]
 
 /-- The `(symbol, comment)` tail of `try_node`: optional symbol, and whether a comment was
 started (its body is read by `next_line`).  A line without comment ends with its newline
